@@ -201,8 +201,18 @@ def removes_on_pickup(cx, fn, cls, table='self.transactions'):
         if table not in txt:
             continue
         seen = True
-        popped = isinstance(r, ast.Call) and callee_name(r) == 'pop' and U(r.func.value) == table and r.args and \
-            (U(r.args[0]) == key or (table.endswith('transactions') and len(r.args) >= 1))
+        # every look-up in the table on this path uses the requested key (after substituting locals): a fallback key
+        # (oldest entry, default id, ...) hands out an entry that was stored for another request
+        keys = []
+        for n in ast.walk(r):
+            if isinstance(n, ast.Subscript) and U(n.value) == table:
+                keys.append(U(n.slice))
+            elif isinstance(n, ast.Call) and callee_name(n) in ('pop', 'get') and isinstance(n.func, ast.Attribute) and U(n.func.value) == table and n.args:
+                keys.append(U(n.args[0]))
+        foreign = [k for k in keys if k != key]
+        if foreign or not keys:
+            return False, 'path returns %s: entry looked up under %s, not under the requested id' % (txt, foreign[0] if foreign else 'nothing')
+        popped = isinstance(r, ast.Call) and callee_name(r) == 'pop' and U(r.func.value) == table and r.args and U(r.args[0]) == key
         deleted = any((e.kind == 'del' and table in U(e.node)) or
                       (e.kind == 'call' and callee_name(e.node) in ('pop', 'popitem') and table in U(e.node)) for e in p.ev)
         if not (popped or deleted):
